@@ -3,12 +3,36 @@ import collections
 from .facts import callee_name
 
 
+def const_switch_value(block):
+    """the value of a switch operand that is a compile-time constant (`if cfg!(debug_assertions) { .. }`), else None"""
+    t = block['term']
+    if t['k'] != 'switch':
+        return None
+    d = t['discr']
+    c = None
+    if d.get('k') == 'const' and ('int' in d or 'bool' in d):
+        c = int(d['bool']) if 'bool' in d else int(d['int'])
+    elif d.get('k') in ('move', 'copy') and not d['place']['p']:
+        for s_ in reversed(block['stmts']):
+            if s_['k'] == 'assign' and not s_['place']['p'] and s_['place']['l'] == d['place']['l']:
+                o = s_['rv'].get('op') if s_['rv']['k'] == 'use' else None
+                if o is not None and o.get('k') == 'const' and ('int' in o or 'bool' in o):
+                    c = int(o['bool']) if 'bool' in o else int(o['int'])
+                break
+    return c
+
+
 def normal_succs(block):
     t = block['term']
     k = t['k']
     if k == 'goto':
         return [t['target']]
     if k == 'switch':
+        # a switch on a compile-time constant has one feasible arm
+        c = const_switch_value(block)
+        if c is not None:
+            hit = [tgt for v, tgt in t['arms'] if str(v) == str(c)]
+            return [hit[0] if hit else t['otherwise']]
         out = []
         for _, tgt in t['arms']:
             if tgt not in out:
